@@ -279,7 +279,7 @@ func (db *RockDB) incr(ts int64, key []byte, delta int64) (int64, error) {
 
 //	ps : here just focus on deleting the key-value data,
 //		 any other likes expire is ignore.
-func (db *RockDB) kvDel(key []byte, wb engine.WriteBatch) (int64, error) {
+func (db *RockDB) kvDel(ts int64, key []byte, wb engine.WriteBatch) (int64, error) {
 	rawKey := key
 	table, key, err := convertRedisKeyToDBKVKey(key)
 	if err != nil {
@@ -288,9 +288,13 @@ func (db *RockDB) kvDel(key []byte, wb engine.WriteBatch) (int64, error) {
 	delCnt := int64(1)
 	if db.cfg.EnableTableCounter {
 		if !db.cfg.EstimateTableCounter {
-			vok, _ := db.ExistNoLock(key)
-			if vok {
+			v, _ := db.GetBytesNoLock(key)
+			if v != nil {
 				db.IncrTableKeyCount(table, -1, wb)
+				if expired, _ := db.expiration.isExpired(ts, KVType, rawKey, v, false); expired {
+					// the stored record goes away, but an expired key does not count as deleted
+					delCnt = int64(0)
+				}
 			} else {
 				delCnt = int64(0)
 			}
@@ -333,13 +337,18 @@ func (db *RockDB) DecrBy(ts int64, key []byte, decrement int64) (int64, error) {
 }
 
 func (db *RockDB) DelKeys(keys ...[]byte) (int64, error) {
+	return db.DelKeysAt(0, keys...)
+}
+
+// DelKeysAt deletes the keys; keys whose expiry has passed at the log timestamp ts do not count
+func (db *RockDB) DelKeysAt(ts int64, keys ...[]byte) (int64, error) {
 	if len(keys) == 0 {
 		return 0, nil
 	}
 
 	delCnt := int64(0)
 	for _, k := range keys {
-		c, _ := db.kvDel(k, db.wb)
+		c, _ := db.kvDel(ts, k, db.wb)
 		delCnt += c
 	}
 
